@@ -38,6 +38,9 @@ var kindAccessor = map[string]string{
 
 // kindArms returns, per kind named in the case lists of the function's
 // `switch x.Kind()`, the selector names called in that arm matching filter.
+// helperBodies: package-level functions of lib/proto by name (set by ruleR2).
+var helperBodies map[string]*ast.BlockStmt
+
 func kindArms(fd *ast.FuncDecl, filter func(call *ast.CallExpr) (string, bool)) (map[string][]string, map[string]token.Pos) {
 	out := map[string][]string{}
 	pos := map[string]token.Pos{}
@@ -62,6 +65,19 @@ func kindArms(fd *ast.FuncDecl, filter func(call *ast.CallExpr) (string, bool)) 
 					if nm, ok := filter(c2); ok {
 						names = append(names, nm)
 					}
+					// per-kind helper: look one level into package-local callees
+					if id, ok := c2.Fun.(*ast.Ident); ok && helperBodies != nil {
+						if hb, ok := helperBodies[id.Name]; ok {
+							ast.Inspect(hb, func(m2 ast.Node) bool {
+								if c3, ok := m2.(*ast.CallExpr); ok {
+									if nm, ok := filter(c3); ok {
+										names = append(names, nm)
+									}
+								}
+								return true
+							})
+						}
+					}
 				}
 				return true
 			})
@@ -78,8 +94,18 @@ func kindArms(fd *ast.FuncDecl, filter func(call *ast.CallExpr) (string, bool)) 
 }
 
 func ruleR2(c *Ctx) {
-	tp, _ := c.P.FuncDecl(protoPkg, "toProto")
+	tp, ppk := c.P.FuncDecl(protoPkg, "toProto")
 	ts, _ := c.P.FuncDecl(protoPkg, "toStarlark1")
+	helperBodies = map[string]*ast.BlockStmt{}
+	if ppk != nil {
+		for _, f := range ppk.Syntax {
+			for _, d := range f.Decls {
+				if fd, ok := d.(*ast.FuncDecl); ok && fd.Recv == nil && fd.Body != nil && fd.Name.Name != "toProto" && fd.Name.Name != "toStarlark1" {
+					helperBodies[fd.Name.Name] = fd.Body
+				}
+			}
+		}
+	}
 	if tp == nil || ts == nil {
 		c.anchorFail("lib/proto.toProto / toStarlark1 not found")
 		return
@@ -94,8 +120,12 @@ func ruleR2(c *Ctx) {
 	})
 	accs, apos := kindArms(ts, func(call *ast.CallExpr) (string, bool) {
 		if sel, ok := call.Fun.(*ast.SelectorExpr); ok && len(call.Args) == 0 {
-			if id, ok := sel.X.(*ast.Ident); ok && id.Name == paramName(ts, 1) {
-				return sel.Sel.Name, true
+			if id, ok := sel.X.(*ast.Ident); ok {
+				if t := ppk.TypesInfo.TypeOf(id); t != nil {
+					if pp, n := namedOf(t); strings.HasSuffix(pp, "protoreflect") && n == "Value" {
+						return sel.Sel.Name, true
+					}
+				}
 			}
 		}
 		return "", false
@@ -194,6 +224,26 @@ func frozenPtrGuard(fn *ssa.Function, b *ssa.BasicBlock, roots []base) bool {
 		if pc.Branch != neg {
 			continue // frozen is true on this path
 		}
+		// predicate helper: m.isFrozen() whose body returns *m.frozen
+		if call, ok := cond.(*ssa.Call); ok {
+			if cal := call.Call.StaticCallee(); cal != nil && cal.Blocks != nil && cal.Signature.Recv() != nil && len(call.Call.Args) == 1 && isProtoWrapper(qualType(cal.Signature.Recv().Type())) {
+				returnsFlag := false
+				eachInstr(cal, func(in ssa.Instruction) {
+					if r, ok := in.(*ssa.Return); ok && len(r.Results) == 1 {
+						if ld, ok := r.Results[0].(*ssa.UnOp); ok && ld.Op == token.MUL {
+							tr := traceAddr(ld.X)
+							if len(tr.fields) > 0 && tr.fields[0].Name() == "frozen" && len(tr.bases) == 1 && tr.bases[0].v == cal.Params[0] {
+								returnsFlag = true
+							}
+						}
+					}
+				})
+				if returnsFlag && sameBases(roots, resolveBases(fn, traceAddr(call.Call.Args[0]).bases)) {
+					return true
+				}
+			}
+			continue
+		}
 		ld, ok := cond.(*ssa.UnOp)
 		if !ok || ld.Op != token.MUL {
 			continue
@@ -251,7 +301,9 @@ func ruleR3(c *Ctx) {
 			case *ssa.Parameter:
 				if isProtoreflectIface(x.Type()) {
 					// any unexported function taking a raw storage handle is a private helper:
-					// its stores are justified at its call sites (checked recursively below)
+					// its stores are justified at its call sites (checked recursively below).
+					// The parameter may belong to an enclosing function (captured by a closure).
+					fn := x.Parent()
 					if fn.Object() != nil && fn.Object().Exported() {
 						return "handle is a parameter of an exported function: its callers cannot be enumerated", false
 					}
@@ -382,7 +434,7 @@ func ruleR1(c *Ctx) {
 				switch cal.Name() {
 				case "ValueOfMessage", "ValueOfList", "ValueOfMap":
 					n++
-					key := fmt.Sprintf("%s: %s", fnName(fn), cal.Name())
+					key := fmt.Sprintf("lib/proto: %s of a handle", cal.Name())
 					pos := c.P.Pos(call.Pos())
 					tr := handleTrace(call.Call.Args[0])
 					aliased := ""
@@ -420,7 +472,7 @@ func ruleR1(c *Ctx) {
 						continue
 					}
 					n++
-					key := fmt.Sprintf("%s: %s of a Range value", fnName(fn), call.Call.Method.Name())
+					key := fmt.Sprintf("lib/proto: %s of a Range value into another message", call.Call.Method.Name())
 					c.viol(key, c.P.Pos(call.Pos()), "a field value handed out by Range on one message is stored into another message without copying: sub-messages, lists and maps are shared between the two (a shallow copy of a frozen message stays mutable through the copy)")
 				}
 			}
